@@ -36,7 +36,8 @@ HOUR = 3600 * 10**9
 
 KV_MIX = "set=6,get=4,del=2,getdel=6,lastaccess=1,enc=1"
 AUTH_MIX = "set=2,get=2,getdel=1,login=3,loginx=2,logout=3,regen=3,user=3,lastaccess=1,expired=1,enc=2,dec=1,destroy=1"
-DIRECTED = ["start-ua", "compact", "id-set", "id-delete", "id-logout", "id-login", "id-destroy", "regen-fields", "login-leak"]
+DESTROY_MIX = "set=3,get=2,getdel=1,login=1,logout=1,regen=1,user=2,lastaccess=1,expired=1,enc=1,destroy=5"
+DIRECTED = ["start-ua", "compact", "id-set", "id-delete", "id-logout", "id-login", "id-destroy", "regen-fields", "login-leak", "destroy-race"]
 PARAMS = ("clients", "inflight", "reqs", "hops", "seed", "cache", "codec", "idexpiry", "grace", "sessionexpiry", "cacheexpiry", "keys", "mix",
           "cuid", "purge", "hist", "deadline", "directed", "iters")
 
@@ -46,6 +47,10 @@ PARAMS = ("clients", "inflight", "reqs", "hops", "seed", "cache", "codec", "idex
 
 def directed_script(name, iters, deadline_ms):
     cache = {"compact": 4, "login-leak": 4096}.get(name, 64)
+    if name == "destroy-race":
+        # sessions are ended while other requests present their IDs (C07 judges the outcome, see vlib/conc07.py; here: races, panics)
+        return "directed destroy-race\niters %d\ninflight 4\nhops 6\ncache 64\nidexpiry %d\ngrace %d\nhist 0\nstoredelay 1000 200\ndeadline %d\n" % (
+            max(20, iters // 2), HOUR, HOUR, deadline_ms)
     if name == "regen-fields":
         iters = max(20, iters // 3)  # the chain of replaced IDs makes each round longer
     return "directed %s\niters %d\ncache %d\nidexpiry %d\ngrace %d\nhist 0\ndeadline %d\n" % (name, iters, cache, HOUR, HOUR, deadline_ms)
@@ -56,6 +61,8 @@ def random_script(rnd, i, reqs, deadline_ms, boost=None):
     codec = ["gob", "json"][(i // 2) % 2]
     hist = 1 if i % 3 != 0 else 0  # a third of the runs keep the goroutines free of the history's atomic counter
     kind = boost or ["default", "kv", "auth"][i % 3]
+    if not boost and i % 7 == 6:
+        kind = "destroy"
     p = {"clients": rnd.choice([1, 2, 3, 4]), "inflight": rnd.choice([2, 3, 4, 6]), "reqs": reqs, "hops": rnd.choice([3, 4, 6]),
          "seed": rnd.randrange(1, 1 << 30), "cache": cache, "codec": codec,
          "idexpiry": rnd.choice([0, 0, 0, 2_000_000, HOUR]), "grace": rnd.choice([5_000_000, 20_000_000, 200_000_000]),
@@ -66,6 +73,9 @@ def random_script(rnd, i, reqs, deadline_ms, boost=None):
                   "cache": rnd.choice([64, 64, 2]), "idexpiry": rnd.choice([0, HOUR, HOUR]), "hist": 1, "reqs": max(10, reqs // 2)})
     elif kind == "auth":
         p.update({"mix": AUTH_MIX, "cache": rnd.choice([64, 64, 2, 1])})
+    elif kind == "destroy":
+        # sessions end often while other in-flight requests of the same client still use them
+        p.update({"mix": DESTROY_MIX, "cache": rnd.choice([64, 2, 1]), "clients": rnd.choice([1, 2]), "inflight": rnd.choice([4, 6])})
     return "".join("%s %s\n" % (k, p[k]) for k in PARAMS if k in p)
 
 
@@ -109,7 +119,7 @@ def script_of_replay(text):
     lines = []
     for l in text.split("\n"):
         t = l.strip().split()
-        if len(t) == 2 and t[0] in PARAMS:
+        if (len(t) == 2 and t[0] in PARAMS) or (len(t) == 3 and t[0] == "storedelay"):
             lines.append(l.strip())
     return "\n".join(lines) + "\n"
 
@@ -274,7 +284,7 @@ def check_history(ops):
 class Run:
     def __init__(self, name, script):
         self.name, self.script = name, script
-        self.races, self.harness_races, self.panics, self.lin = [], [], [], []
+        self.races, self.harness_races, self.panics, self.lin, self.resurrect = [], [], [], [], []
         self.stuck = 0
         self.crash = None
         self.infra = None
@@ -309,6 +319,8 @@ def run_scenario(hbin, name, script, workdir):
     for l in lines:
         if l.startswith("panic "):
             r.panics.append(l)
+        elif l.startswith("resurrect "):
+            r.resurrect.append(l)
         elif l.startswith("stuck "):
             r.stuck = int(l.split()[1])
         elif l.startswith("stat "):
@@ -507,7 +519,7 @@ def main(tier, seed, replay=None):
             tot[k] = tot.get(k, 0) + v
     rep.cov["evaluations"] = len(results)
     rep.cov["distinct_nontrivial"] = len(set(r.script for r in results if r.stats.get("objects_shared", 0) > 0 or r.kv_overlap > 0))
-    rep.cov["rule"] = ("scenarios = the 9 directed schedules (one per access pair that was unguarded before fix 6e35682, plus the LogIn lock leak) "
+    rep.cov["rule"] = ("scenarios = the 10 directed schedules (one per access pair that was unguarded before fix 6e35682, the LogIn lock leak, and sessions ended while their IDs are in use) "
                        "+ seeded random scenarios of harness/conc.go (clients x in-flight requests sharing sessions through the cache, rotation on "
                        "every request or every 2 ms, cache size 0/1/2/64, gob/JSON, key/value-heavy and login/rotation-heavy mixes, CUID and "
                        "PurgeSessions goroutines) on the real package built with -race, + key/value-only scenarios on the plain build (ten times "
